@@ -95,7 +95,8 @@ NextRecord ==
      IN IF ~pre THEN UNCHANGED <<emitted, mems>>
         ELSE LET res == Run(stages, mems, r) IN
              /\ mems' = res.mems
-             /\ emitted' = IF res.keep THEN Append(emitted, [id |-> r.id, ts |-> r.ts, line |-> res.line, L |-> res.L, open |-> res.open]) ELSE emitted
+             /\ emitted' = IF res.keep THEN Append(emitted, [id |-> r.id, ts |-> r.ts, line |-> res.line, L |-> res.L, open |-> res.open,
+                                                             lopen |-> res.lopen, vopen |-> res.vopen, opt |-> res.opt]) ELSE emitted
   /\ idx' = idx + 1
   /\ UNCHANGED <<recs, sel, stages, capL, capF, limit, pc, offLabels, prefilter, offLines, avail>>
 IterEnd == pc = "iter" /\ (idx > Len(avail) \/ (limit > 0 /\ Len(emitted) >= limit)) /\ pc' = "done"
